@@ -68,6 +68,13 @@ HISTORIES = ("fresh", "fresh", "fresh", "second_write", "after_other")
 #: case through public operations only (list property setters, the stack, rate(), append + assignment of the new list, assignment of new lists
 #: and fields), then written again: the second result must denote the chart as it is NOW
 EDIT_HISTORIES = ("edit_scaled_props", "edit_scaled_stack", "edit_scaled_rate", "edit_columns_props", "edit_columns_stack", "edit_appended", "edit_replaced")
+#: ORIGIN "read from a text, then changed in memory": the chart object comes out of BMSMap.read(<text of the case>) - so whatever the reader
+#: leaves on the object beside the chart (entries in `misc`, ...) is there -, is (half of the time) written once as it was read, and is then
+#: changed into the chart of the case through public fields only: ln_end_channel, title, artist, version, the samples table (assigned or
+#: updated in place), entries added to misc, the three lists assigned.  The file written then must denote the chart as it is NOW.
+READ_HISTORY = "edit_read_then_changed"
+SRC_LNOBJ = ["ZZ", "ZZ", "ZZ", "ZY", "YY", "0Z", "02", "zz", "AA"]
+SRC_HEADERS = [("GENRE", "src genre"), ("TOTAL", "250"), ("RANK", "2"), ("DIFFICULTY", "4"), ("SUBARTIST", "obj: someone"), ("PLAYER", "1"), ("STAGEFILE", "stage.bmp"), ("VOLWAV", "90")]
 #: what the target path of write_file holds before the call
 FILE_BEFORE = ("empty", "absent", "longer_text", "shorter_text", "other_chart", "same_path_twice")
 #: tempo values at the ends of what `#BPM` / `#BPMxx` can carry with <= 3 decimals
@@ -114,8 +121,46 @@ def _labels_for(rng, n, mode):
     return lab
 
 
+def gen_source_text(rng, layout_name, lnobj, samples, src_lnobj=None):
+    """a small, plain BMS text (one tempo, 4/4, objects on simple subdivisions) a chart object is READ from before it is changed into the chart of
+    the case: -> dict(layout, lines, write_first, samples_how).  Its #LNOBJ (80%: present) is in 3 of 4 texts ANOTHER id than the LN end id the
+    chart gets afterwards; its #WAV table, title, artist, level and other headers differ from the chart's; 1 in 6 texts spells its headers in
+    lower case; 1 in 4 gives its #LNOBJ id a #WAV entry as well (the reason to move the LN end id away from it)."""
+    chans = DOC_LAYOUTS[layout_name].split()
+    r = rng.random()
+    src_ln = "" if r < 0.2 else lnobj if (r < 0.4 and lnobj) else rng.choice([x for x in SRC_LNOBJ if x.upper() != lnobj.upper()] or ["ZY"])
+    if src_lnobj is not None:
+        src_ln = src_lnobj
+    low = rng.random() < 1 / 6
+    K = (lambda k: k.lower()) if low else (lambda k: k)
+    lines = [f"#{K('TITLE')} source title {rng.randrange(100)}", f"#{K('ARTIST')} source artist", f"#{K('BPM')} {rng.choice(['120', '150', '90.5'])}", f"#{K('PLAYLEVEL')} {rng.randrange(1, 13)}"]
+    for k, v in rng.sample(SRC_HEADERS, rng.randrange(0, 4)):
+        lines.append(f"#{K(k)} {v}")
+    if src_ln:
+        lines.insert(rng.randrange(2, len(lines) + 1), f"#{K('LNOBJ')} {src_ln}")
+    ids = [i for i in ["01", "02", "0A", "1Z"][: rng.randrange(1, 5)] if i != src_ln.upper()] or ["0B"]  # (the marker id is no ordinary object of this text)
+    for i in ids:
+        lines.append(f"#WAV{i} src {i}.wav")
+    if src_ln and rng.random() < 0.25:
+        lines.append(f"#WAV{src_ln.upper()} src marker.wav")
+    if rng.random() < 0.3:
+        lines += ["#BPM01 180", "#00208:01"]
+    lines.append("")
+    for meas in range(rng.randrange(1, 4)):
+        for ch in rng.sample(chans, rng.randrange(1, min(4, len(chans)) + 1)):
+            n = rng.choice([1, 2, 4, 8])
+            seq = [rng.choice(ids + ["00", "00"]) for _ in range(n)]
+            if not any(x != "00" for x in seq):
+                seq[0] = ids[0]
+            if src_ln and n >= 2 and rng.random() < 0.6:  # a long note: the object before the marker is its head
+                j = rng.randrange(1, n)
+                seq[j - 1], seq[j] = ids[0], src_ln
+            lines.append(f"#{meas + 1:03d}{ch}:{''.join(seq)}")
+    return dict(layout=layout_name, lines=lines, write_first=rng.random() < 0.5, samples_how=rng.choice(["assigned", "in_place"]), lists_first=rng.random() < 0.5)
+
+
 def gen_case(rng, layout_name, *, n_tempo=None, long_bpm=False, density=None, notes=None, far=None, int_ms=None, placeholder=None, lnobj=None,
-             history=None, call=None, via_file=None, labels=None, empty_via=None, wide_bpm=None, last_measure=False, file_before=None, special=None):
+             history=None, call=None, via_file=None, labels=None, empty_via=None, wide_bpm=None, last_measure=False, file_before=None, special=None, src_lnobj=None):
     """one chart + the way it is written.  Every dimension that is not forced by the caller is a mixture on `rng`."""
     lanes = columns_of(layout_name)
     notes = notes if notes is not None else (rng.choice(NOTE_SHAPES[1:]) if rng.random() < 0.22 else "both")
@@ -214,6 +259,11 @@ def gen_case(rng, layout_name, *, n_tempo=None, long_bpm=False, density=None, no
             pos.append((Fraction(4 * rng.randrange(w0, w1)), True))
         if prev and rng.random() < 0.3:
             pos.extend(rng.sample(prev, rng.randrange(1, len(prev) + 1)))
+        if last_measure:
+            # the format has measures 000..999: an OFF-grid position so close to the end of measure 999 that its nearest
+            # grid position is the line of measure 1000 has no written form at all - outside the domain, so it is moved
+            # one 1/24 beat earlier (no random choice involved: every other case stays as it was)
+            pos = [(b - Fraction(1, 24), g) if (not g and b > 4000 - Fraction(1, 48)) else (b, g) for b, g in pos]
         pos.sort()
         kept = []
         for p, g in pos:
@@ -280,6 +330,9 @@ def gen_case(rng, layout_name, *, n_tempo=None, long_bpm=False, density=None, no
                 lnobj_set=not (lnobj == "ZZ" and rng.random() < 0.3))
     if special:
         case["special"] = special
+    if history == READ_HISTORY:
+        case["source"] = gen_source_text(rng, layout_name, lnobj, samples, src_lnobj=src_lnobj)
+        case["lnobj_set"] = True  # (a chart that was read has the LN end id of its text, not the class default)
     if case["via_file"]:
         case["file_before"] = file_before or rng.choice(FILE_BEFORE)
     if history in ("after_other", "edit_replaced") or case.get("file_before") == "other_chart":
@@ -442,6 +495,31 @@ def prepare(case, keep=None, first_path=None):
         src, tl = build_map(case)
         m.hits, m.holds, m.bpms = src.hits, src.holds, src.bpms
         m.samples, m.ln_end_channel, m.title, m.artist, m.version, m.misc = src.samples, src.ln_end_channel, src.title, src.artist, src.version, src.misc
+    elif kind == "read_then_changed":
+        from reamber.bms import BMSMap
+
+        src = case["source"]
+        m = _edit("BMSMap.read(<source text>)", lambda: BMSMap.read(list(src["lines"]), layout_of(src["layout"])))
+        if src.get("write_first"):
+            _edit("write() of the chart as it was read", lambda: first(m, dict(case, layout=src["layout"])))
+        new, tl = build_map(case)
+
+        def lists():
+            m.hits, m.holds, m.bpms = new.hits, new.holds, new.bpms
+
+        if src.get("lists_first"):
+            lists()
+        m.ln_end_channel = case["lnobj"].encode()
+        m.title, m.artist, m.version = new.title, new.artist, new.version
+        if src.get("samples_how") == "in_place":
+            m.samples.clear()
+            m.samples.update(new.samples)
+        else:
+            m.samples = new.samples
+        for k, v in new.misc.items():
+            m.misc[k] = v  # what the reader left in misc stays there
+        if not src.get("lists_first"):
+            lists()
     elif kind.startswith("scaled"):
         m, tl = build_map(case, variant="scaled")
         first(m, case)
@@ -530,8 +608,30 @@ def _cmp_timelines(got, want, tol_t, tol_b):
     return True, "", dev
 
 
+STALE_LNOBJ_CLAUSE = "read_then_ln_end_id_cleared"
+
+
+def _src_lnobj(case):
+    """the #LNOBJ id of the text the chart object was read from ('' when it has none / the chart was not read)"""
+    ids = [ln.split(None, 1)[1].strip() for ln in (case.get("source") or {}).get("lines", []) if ln.upper().startswith("#LNOBJ ") and len(ln.split(None, 1)) == 2]
+    return ids[-1] if ids else ""
+
+
 def run_case(case):
-    """-> (failures [(clause, detail)], observations dict)"""
+    """-> (failures [(clause, detail)], observations dict).  One class of charts has a clause of its own (STALE_LNOBJ_CLAUSE): the chart object was
+    read from a text WITH #LNOBJ and the chart it holds when written has NO LN end id (ln_end_channel = b'', no long notes): whatever the
+    written file gets wrong about the objects of such a chart is reported under that one id."""
+    fails, obs = _run_case_all(case)
+    if _src_lnobj(case) and case["lnobj"] == "":
+        own = [(w, d) for w, d in fails if w in ("file_well_formed", "object_merged_or_dropped", "lane")]
+        if own:
+            detail = (f"the chart object was read from a text with #LNOBJ {_src_lnobj(case)}; its ln_end_channel was then set to b'' (no long notes, id {_src_lnobj(case).upper()} an ordinary sample id): "
+                      + "; ".join(f"{w}: {d}" for w, d in own))
+            fails = [(w, d) for w, d in fails if (w, d) not in own] + [(STALE_LNOBJ_CLAUSE, detail)]
+    return fails, obs
+
+
+def _run_case_all(case):
     obs = {}
     fails = []
     lay = interp_layout(case["layout"])  # the documented table, not the one the writer uses
@@ -688,7 +788,7 @@ def _write_file_fails(case, data):
 
 CLAUSES = (
     "write_file_equals_write write_file_replaces_existing_file write_raises line_syntax file_well_formed tempo_timeline object_merged_or_dropped lane hit_position_on_grid hit_time_on_grid hit_time_off_grid "
-    "hold_head_position_on_grid hold_head_time_on_grid hold_head_time_off_grid hold_tail_position_on_grid hold_tail_time_on_grid hold_tail_time_off_grid known_sample_id"
+    "hold_head_position_on_grid hold_head_time_on_grid hold_head_time_off_grid hold_tail_position_on_grid hold_tail_time_on_grid hold_tail_time_off_grid known_sample_id read_then_ln_end_id_cleared"
 ).split()
 
 
@@ -756,6 +856,20 @@ def _edge_cases(rng):
             yield gen_case(rng, name, special=sp, density=4, int_ms=False)
 
 
+def _read_origin_cases(rng, n_random):
+    """ORIGIN read-then-changed, a family of its own that is generated AFTER every other case (so the charts of the older families stay, seed by
+    seed, what they were): per layout 3 charts with long notes (1 through write_file), 1 with id ZZ as an ordinary sample beside another LN end
+    id, 1 read from a text with #LNOBJ ZZ that then holds a chart without long notes and without LN end id in which ZZ is an ordinary sample id
+    (clause of its own); then n_random charts of the general mixture"""
+    for name in LAYOUT_NAMES:
+        for j in range(3):
+            yield gen_case(rng, name, history=READ_HISTORY, notes="both", special="", density=rng.choice([4, 8]), via_file=(j == 2))
+        yield gen_case(rng, name, history=READ_HISTORY, special="zz_sample_lnobj_other", density=4, int_ms=False)
+        yield gen_case(rng, name, history=READ_HISTORY, special="zz_sample_no_lnobj", src_lnobj="ZZ", notes="no_holds", density=4, int_ms=False, via_file=False)
+    for i in range(n_random):
+        yield gen_case(rng, LAYOUT_NAMES[i % 5], history=READ_HISTORY, last_measure=False)
+
+
 def _dims(case):
     """which of the enumerated dimensions a case exercises (for the evidence)"""
     kinds = {o["kind"] for o in case["objs"]}
@@ -798,6 +912,13 @@ def _dims(case):
         d.append("lower_case_ids")
     if case.get("special"):
         d.append("special:" + case["special"])
+    if case.get("source"):
+        src_ln = [ln.split(" ", 1)[1].strip() for ln in case["source"]["lines"] if ln.upper().startswith("#LNOBJ ")]
+        d.append("read_from_text_then_changed")
+        if src_ln and src_ln[-1].upper() != case["lnobj"].upper() and "hold" in kinds:
+            d.append("read_from_text_then_LN_end_id_changed_with_long_notes")
+        if not src_ln and "hold" in kinds:
+            d.append("read_from_text_without_LNOBJ_then_long_notes_added")
     if "ZZ" in case["samples"] and any(o["sample"] == case["samples"]["ZZ"] for o in case["objs"]):
         d.append("object_with_sample_id_ZZ" + ("_no_lnobj_line" if case["lnobj"] == "" else ""))
     times = {}
@@ -813,6 +934,7 @@ def bms_write_vs_interpreter(rep):
     rng = rep.rng
     N = rep.n(300, 2000)
     big = rep.n(300, 1000)
+    n_read = rep.n(35, 300)
     grid = list(_grid_cases())
     edge = list(_edge_cases(rng))
     rep.bound = (
@@ -832,7 +954,12 @@ def bms_write_vs_interpreter(rep):
         f"8% tempo values from the ends of the range ({BPM_WIDE[0]} .. {BPM_WIDE[6]}; on-grid demanded only where the float time is within 1e-9 beat of the grid point), 10% int-typed whole-ms columns, 25% numpy scalars, 8% tempo points 40..150 measures apart; "
         f"1 chart with {big} tempo points (one per measure line); 1/10 of the charts with > 3-decimal bpms (tempo tolerance 0.0005 there); "
         f"(16) ids that are special only through an optional header / argument as ordinary #WAV ids used by objects: 6% id ZZ (the class default of the LN end id) while the LN end id is another one, 6% id ZZ in a chart without long notes whose "
-        f"ln_end_channel is b'' (no #LNOBJ line at all), 5% id 01 (write()'s default placeholder) as a known sample; (14) 12% of the charts give EVERY object a sample and #WAV id of its own; each of the four also once per layout in the edge family"
+        f"ln_end_channel is b'' (no #LNOBJ line at all), 5% id 01 (write()'s default placeholder) as a known sample; (14) 12% of the charts give EVERY object a sample and #WAV id of its own; each of the four also once per layout in the edge family; "
+        f"ORIGIN read-then-changed (history {READ_HISTORY}), a family generated after all others: {n_read} charts of the general mixture and 5 charts per layout (3 with long notes, 1 of them through write_file, 1 with id ZZ as an ordinary sample beside another LN end id, "
+        f"1 read from a text with #LNOBJ ZZ and then holding a chart without long notes, ln_end_channel b'' and ZZ as an ordinary sample id: clause {STALE_LNOBJ_CLAUSE}) sit in a chart object that was READ by the real BMSMap.read "
+        f"from a small plain BMS text kept in the case (one or two tempos, 1..3 measures, 1..4 #WAV ids, 0..3 other headers, 1/6 lower-case header names; #LNOBJ present in 80%, in 3 of 4 texts another id than the chart's LN end id, 1/4 with a #WAV entry of its own), "
+        f"was written once as read (50%), and was then changed into the chart of the case through public fields only: ln_end_channel, title, artist, version assigned, the samples table assigned or cleared-and-updated in place, entries ADDED to misc "
+        f"(what the reader left there stays), the hit / hold / tempo lists assigned before or after the fields"
     )
     rep.rule = ("a case is one chart + layout + the way write is called + what happened to the chart object / the target path before; the written bytes are interpreted with the DOCUMENTED channel table of the layout "
                 "(Writerside/topics/reamber/bms/Channel.md), not with the writer's own; non-trivial when it has >= 2 objects or >= 2 tempo points; "
@@ -870,6 +997,10 @@ def bms_write_vs_interpreter(rep):
         if rep.out_of_time(40, 420):
             break
         one(gen_case(rng, LAYOUT_NAMES[i % 5], long_bpm=(i % 10 == 9)))
+    for case in _read_origin_cases(rng, n_read):
+        if rep.out_of_time(50, 480):
+            break
+        one(case)
     rep.extra["cases_per_dimension"] = dict(sorted(dims.items()))
 
     # documented limit: "up to 1295 tempo points".  Tempo points sit on distinct measure lines, the format has
